@@ -10,7 +10,7 @@ from sa.cf import cfg_of
 from sa.pm import FuncInfo, call_name, norm, self_attr, walk_local_ordered
 from sa.report import Ob, rule
 
-from .common import attr_stores, ob, strip_ret, traces
+from .common import attr_stores, ob, strip_ret, traces, xnorm
 
 QH = 'zeroconf._handlers.query_handler.QueryHandler'
 QR = 'zeroconf._handlers.query_handler._QueryResponse'
@@ -149,7 +149,10 @@ def route(ctx: Any) -> List[Ob]:
     qcalls = [c for c in walk_local_ordered(s.node) if isinstance(c, ast.Call) and call_name(c) == 'async_add']
     obs.append(ob(R, s, 'async_add(first_packet.now, ...)', 'queued answers are timed from the arrival of the query', len(qcalls) == 2 and all(norm(c.args[0]).endswith('.now') for c in qcalls)))
     # unicast reply is built from the first packet's id and questions, under ucast_source = port != 5353
-    us = [st for st in walk_local_ordered(s.node) if isinstance(st, ast.Assign) and isinstance(st.targets[0], ast.Name) and st.targets[0].id == 'ucast_source']
+    # the flag handed to async_response / the unicast constructor: found by role, not by name
+    ar = [c for c in walk_local_ordered(s.node) if isinstance(c, ast.Call) and call_name(c) == 'async_response']
+    flag = norm(ar[0].args[1]) if ar and len(ar[0].args) > 1 else '?'
+    us = [st for st in walk_local_ordered(s.node) if isinstance(st, ast.Assign) and isinstance(st.targets[0], ast.Name) and st.targets[0].id == flag]
     ok_us = False
     if len(us) == 1 and isinstance(us[0].value, ast.Compare):
         try:
@@ -159,19 +162,33 @@ def route(ctx: Any) -> List[Ob]:
             pass
     obs.append(ob(R, s, 'ucast_source = port != _MDNS_PORT', 'a query is a legacy-unicast query iff its source port is not 5353', ok_us))
     # parameter pass-through from the protocol to the handler
-    chain = [('zeroconf._listener.AsyncListener._process_datagram_at_time', 'handle_query_or_defer'), ('zeroconf._listener.AsyncListener.handle_query_or_defer', '_respond_query'), ('zeroconf._listener.AsyncListener._respond_query', 'handle_assembled_query')]
-    for fn, callee in chain:
+    pd = prog.func('zeroconf._listener.AsyncListener._process_datagram_at_time')
+    unpack = [st for st in walk_local_ordered(pd.node) if isinstance(st, ast.Assign) and isinstance(st.targets[0], ast.Tuple) and norm(st.value) == pd.params[5]]
+    firsts = {tuple(norm(e) for e in st.targets[0].elts[:2]) for st in unpack}
+    ok_un = len(unpack) == 2 and len(firsts) == 1 and {len(st.targets[0].elts) for st in unpack} == {2, 4}
+    obs.append(ob(R, pd, 'addr, port = addrs / addr, port, flow, scope = addrs', 'address and port are the first two components of the source address of the datagram (both address shapes)', ok_un))
+    a_loc, p_loc = next(iter(firsts)) if len(firsts) == 1 else ('?', '?')
+    calls = [c for c in walk_local_ordered(pd.node) if isinstance(c, ast.Call) and call_name(c) == 'handle_query_or_defer']
+    good = bool(calls)
+    for c in calls:
+        args = [norm(a) for a in c.args]
+        good = good and len(args) == 5 and args[1] == a_loc and args[2] == p_loc and args[3] == f'{pd.params[0]}.transport'
+        # the flow/scope argument is the local built from the unpacked flow and scope (or the empty tuple)
+        v6 = [xnorm(pd, st.value) if st.value is not None else '' for st in walk_local_ordered(pd.node) if isinstance(st, (ast.Assign, ast.AnnAssign)) and norm(st.targets[0] if isinstance(st, ast.Assign) else st.target) == args[4]]
+        good = good and len(v6) == 2 and '()' in v6
+    obs.append(ob(R, pd, 'handle_query_or_defer(msg, addr, port, self.transport, v6_flow_scope)', 'source address and port and the receiving transport are handed on unchanged', good))
+    for fn, callee in (('zeroconf._listener.AsyncListener.handle_query_or_defer', '_respond_query'), ('zeroconf._listener.AsyncListener._respond_query', 'handle_assembled_query')):
         ff = prog.func(fn)
+        want_tail = ff.params[2:6]
         calls = [c for c in walk_local_ordered(ff.node) if isinstance(c, ast.Call) and call_name(c) == callee]
         good = bool(calls)
         for c in calls:
-            args = [norm(a) for a in c.args]
-            tail = args[-4:]
-            good = good and tail[0] in ('addr',) and tail[1] == 'port' and tail[2] in ('transport', 'self.transport') and tail[3] == 'v6_flow_scope'
-        obs.append(ob(R, ff, f'{callee}(..., addr, port, transport, v6_flow_scope)', 'source address, port and the receiving transport are handed on unchanged', good))
-    pd = prog.func('zeroconf._listener.AsyncListener._process_datagram_at_time')
-    unpack = [st for st in walk_local_ordered(pd.node) if isinstance(st, ast.Assign) and isinstance(st.targets[0], ast.Tuple) and norm(st.value) == pd.params[5]]
-    obs.append(ob(R, pd, 'addr, port = addrs / addr, port, flow, scope = addrs', 'address and port are the first two components of the source address of the datagram', len(unpack) == 2 and all([norm(e) for e in st.targets[0].elts][:2] == ['addr', 'port'] for st in unpack)))
+            tail = [norm(a) for a in c.args][-4:]
+            # the protocol object's own transport *is* the receiving transport
+            if len(tail) == 4 and tail[2] == f'{ff.params[0]}.transport':
+                tail[2] = want_tail[2]
+            good = good and tail == want_tail
+        obs.append(ob(R, ff, f'{callee}(..., {", ".join(want_tail)})', 'source address, port, transport and flow/scope are handed on unchanged (own parameters, same positions)', good))
     return obs
 
 
@@ -237,8 +254,11 @@ def fmt(ctx: Any) -> List[Ob]:
     obs.append(ob(R, mul, 'construct_outgoing_multicast_answers', 'a multicast reply has no question section (nothing it calls adds a question)', not has_q, str(has_q)))
     # the unicast id comes from the first packet and the questions too
     s = prog.func(QH + '.handle_assembled_query')
-    defs = {st.targets[0].id: norm(st.value) for st in walk_local_ordered(s.node) if isinstance(st, ast.Assign) and isinstance(st.targets[0], ast.Name)}
-    obs.append(ob(R, s, f"id_ = {defs.get('id_')}; questions = {defs.get('questions')}", 'the unicast reply echoes id and questions of the (first) query packet', defs.get('id_') == 'first_packet.id' and defs.get('questions') == 'first_packet._questions' and defs.get('first_packet') == 'packets[0]'))
+    uc = [c for c in walk_local_ordered(s.node) if isinstance(c, ast.Call) and call_name(c) == 'construct_outgoing_unicast_answers']
+    pk = s.params[1]
+    got_q = xnorm(s, uc[0].args[2]) if uc and len(uc[0].args) == 4 else '?'
+    got_id = xnorm(s, uc[0].args[3]) if uc and len(uc[0].args) == 4 else '?'
+    obs.append(ob(R, s, f'construct_outgoing_unicast_answers(..., {got_q}, {got_id})', 'the unicast reply echoes id and questions of the (first) query packet', got_q == f'{pk}[0]._questions' and got_id == f'{pk}[0].id'))
     obs.append(ob(R, ('src/zeroconf/_dns.py', '<module>'), '_RECENT_TIME_MS', 'recently multicast = within one quarter of the TTL (250 ms per TTL second)', prog.const('zeroconf._dns', '_RECENT_TIME_MS') == 250))
     obs.append(ob(R, ('src/zeroconf/const.py', '<module>'), '_MDNS_PORT', 'the mDNS port is 5353', prog.const('zeroconf.const', '_MDNS_PORT') == 5353))
     # recent / last-second consult the cache entry for that record
